@@ -86,3 +86,10 @@ package ice
 //@   ensures invalid-source-has-the-zero-key: !valid ==> forall j int :: 0 <= j && j < 18 ==> result[j] == 0
 
 //@ spec func a16zero() seq
+
+// The reader side: the byte counter grows by exactly what Read returns, and a
+// closed agent reads nothing.
+//@ func (*Conn).Read
+//@   props C07
+//@   site call Read#1 assert reads-the-agents-buffer-into-the-callers-slice: arg0 == c.agent.buf && arg1 == p
+//@   site call Add#1 assert counts-exactly-the-returned-bytes: arg1 == n
